@@ -18,6 +18,10 @@ def barrel_shifter(bits_to_shift, bit_in, direction, shift_dist, wrap_around=0):
     if wrap_around != 0:
         raise NotImplementedError
 
+    # len() and [] below must be about bits, also for wire_struct/wire_matrix instances
+    bits_to_shift = pyrtl.as_wires(bits_to_shift)
+    shift_dist = pyrtl.as_wires(shift_dist)
+
     # Implement with logN stages pyrtl.muxing between shifted and un-shifted values
     final_width = len(bits_to_shift)
     val = bits_to_shift
